@@ -1,34 +1,68 @@
 import ExoVerif.Driver.Common
 import ExoVerif.Model.Epochs
-/- driver for the C15 correspondence: ops `epoch.reset`, `epoch.add …`, `epoch.block bt h` -/
+import ExoVerif.Model.EpochsGenesis
+/- driver for the C15 correspondence.
+   `epoch.reset [genesisTime initHeight]`  empty store; the context InitGenesis runs in
+   `epoch.reg id start dur cur curStart started height`   one entry of the genesis list, in genesis order:
+        AddEpochInfo of the model (`register`); the observation is `ok` whatever it returned (InitGenesis
+        drops the error: the implementation has nothing to show for one entry)
+   `epoch.init`   the store after InitGenesis, every field of every stored identifier, in store order
+   `epoch.add …`  an identifier put into the store as it is (state taken over from a running chain)
+   `epoch.block bt h`   BeginBlocker
+   An empty identifier is written `<empty>`. -/
 namespace ExoVerif.Driver.Epochs
 open ExoVerif.Epochs ExoVerif.Driver
 
+structure St where
+  es : List EpochInfo := []
+  gt : Int := 0
+  gh : Int := 0
+
+def showId (s : String) : String := if s == "" then "<empty>" else s
+def readId (s : String) : String := if s == "<empty>" then "" else s
+
 def showInfo (e : EpochInfo) : String :=
-  s!"{e.identifier}={e.currentEpoch},{e.currentEpochStartTime},{if e.epochCountingStarted then 1 else 0},{e.currentEpochStartHeight}"
+  s!"{showId e.identifier}={e.currentEpoch},{e.currentEpochStartTime},{if e.epochCountingStarted then 1 else 0},{e.currentEpochStartHeight}"
+
+def showFull (e : EpochInfo) : String :=
+  s!"{showId e.identifier}={e.startTime},{e.duration},{e.currentEpoch},{e.currentEpochStartTime},{if e.epochCountingStarted then 1 else 0},{e.currentEpochStartHeight}"
 
 def showEv : Ev → String
-  | .epochEnd id n => s!"E:{id}:{n}"
-  | .epochStart id n => s!"S:{id}:{n}"
+  | .epochEnd id n => s!"E:{showId id}:{n}"
+  | .epochStart id n => s!"S:{showId id}:{n}"
 
-def step (es : List EpochInfo) (w : List String) : List EpochInfo × String :=
+def parseInfo (id st dur cur curSt started hgt : String) : Option EpochInfo :=
+  match parseInt? st, parseInt? dur, parseInt? cur, parseInt? curSt, parseInt? hgt with
+  | some st, some dur, some cur, some curSt, some hgt =>
+    some { identifier := readId id, startTime := st, duration := dur, currentEpoch := cur,
+           currentEpochStartTime := curSt, epochCountingStarted := started == "1",
+           currentEpochStartHeight := hgt }
+  | _, _, _, _, _ => none
+
+def step (s : St) (w : List String) : St × String :=
   match w with
-  | ["epoch.reset"] => ([], "ok")
+  | ["epoch.reset"] => ({}, "ok")
+  | ["epoch.reset", gt, gh] =>
+    match parseInt? gt, parseInt? gh with
+    | some gt, some gh => ({ es := [], gt := gt, gh := gh }, "ok")
+    | _, _ => (s, "bad-op")
+  | ["epoch.reg", id, st, dur, cur, curSt, started, hgt] =>
+    match parseInfo id st dur cur curSt started hgt with
+    | some e => ({ s with es := (register s.es e s.gt s.gh).1 }, "ok")
+    | none => (s, "bad-op")
+  | ["epoch.init"] => (s, joinWith ";" (s.es.map showFull))
   | ["epoch.add", id, st, dur, cur, curSt, started, hgt] =>
-    match parseInt? st, parseInt? dur, parseInt? cur, parseInt? curSt, parseInt? hgt with
-    | some st, some dur, some cur, some curSt, some hgt =>
-      (es ++ [{ identifier := id, startTime := st, duration := dur, currentEpoch := cur,
-                currentEpochStartTime := curSt, epochCountingStarted := started == "1",
-                currentEpochStartHeight := hgt }], "ok")
-    | _, _, _, _, _ => (es, "bad-op")
+    match parseInfo id st dur cur curSt started hgt with
+    | some e => ({ s with es := s.es ++ [e] }, "ok")
+    | none => (s, "bad-op")
   | ["epoch.block", bt, h] =>
     match parseInt? bt, parseInt? h with
     | some bt, some h =>
-      let (es', evs) := beginBlocker es bt h
-      (es', joinWith ";" (es'.map showInfo) ++ "|" ++ joinWith "," (evs.map showEv))
-    | _, _ => (es, "bad-op")
-  | _ => (es, "bad-op")
+      let (es', evs) := beginBlocker s.es bt h
+      ({ s with es := es' }, joinWith ";" (es'.map showInfo) ++ "|" ++ joinWith "," (evs.map showEv))
+    | _, _ => (s, "bad-op")
+  | _ => (s, "bad-op")
 
-def main : IO Unit := runDriver ([] : List EpochInfo) step
+def main : IO Unit := runDriver ({} : St) step
 
 end ExoVerif.Driver.Epochs
